@@ -87,7 +87,7 @@ def prop_graph(case):
     except Exception as e:
         raise Violation("load", "valid document not loaded: %s: %s\n%s" % (type(e).__name__, str(e)[:300], "\n".join(lines)), type(e).__name__)
     comps = check_topology(g, model)
-    return {"nt": _nt(model, comps), "version": doc["version"], "n_components": min(len(comps), 4)}
+    return {"nt": _nt(model, comps), "version": doc["version"], "n_components": min(len(comps), 4), "near_names": case.get("near_names")}
 
 
 def prop_history(case):
@@ -192,7 +192,8 @@ def st_graph(draw):
             b1, e1, _ = gen.interval(r, doc["slen"][a], ka if doc["slen"][a] > 1 else ("sfx0" if ka == "sfx" else "pfx0"))
             b2, e2, _ = gen.interval(r, doc["slen"][b], kb if doc["slen"][b] > 1 else ("sfx0" if kb == "sfx" else "pfx0"))
             doc["lines"].append(["E", ["*", a + o1, b + o2, b1, e1, b2, e2, "*"], []])
-    return {"doc": {"version": v, "lines": doc["lines"]}}
+    doc = gen.near_names(r, {"version": v, "lines": doc["lines"]}, p=0.2)
+    return {"doc": {"version": v, "lines": doc["lines"]}, "near_names": bool(doc.get("near_names"))}
 
 
 def st_hist(version):
